@@ -365,8 +365,17 @@ def compare(watch_state, fork_state):
         # the end (DRAINED versus DRAINED|FAILED).  Only "complete or not" is comparable.
         return diffs
     ta, tb = watch_state["tree"], fork_state["tree"]
+    # A path that the final workflow records as a file still to be built (PLANNED, OUTDATED: an
+    # output of a pending step that is not needed) may or may not be on disk, depending on
+    # whether its step happened to run before it stopped being needed: a memory, like the ones
+    # stripped from the graphs below.  Everything else on disk must agree.
+    unsettled = set()
+    for proj in (watch_state["proj"], fork_state["proj"]):
+        for k, d in proj["nodes"].items():
+            if d.get("kind") == "file" and d.get("state") in ("PLANNED", "OUTDATED"):
+                unsettled.add(k[5:])
     for p in sorted(set(ta) | set(tb)):
-        if ta.get(p) != tb.get(p):
+        if ta.get(p) != tb.get(p) and p not in unsettled:
             diffs.append(f"tree {p}: watch={ta.get(p)} restart={tb.get(p)}")
             if len(diffs) > 8:
                 break
